@@ -884,6 +884,14 @@ func (ts *Service) handleUpdateTask(w http.ResponseWriter, r *http.Request) {
 		updated.ID = task.ID
 	}
 
+	if task.TemplateID == "" && updated.TemplateID != "" {
+		if _, err := ts.templates.Get(updated.TemplateID); err == ErrNoTemplateExists {
+			// The template of the task has been deleted.
+			// The task goes on with the definition it has, it can still be updated.
+			updated.TemplateID = ""
+		}
+	}
+
 	if task.TemplateID != "" || updated.TemplateID != "" {
 		templateID := task.TemplateID
 		if templateID == "" {
